@@ -45,7 +45,7 @@ func init() {
 		Flavour: "plain",
 		Rule: "cases = (decoder, input, pre-loaded receiver). Inputs: every length 0..140 x 12 leading bytes; all 256 prefixes x {on-curve x, off-curve x, x>=p} at lengths 33 and 65; " +
 			"x (and y) from the structured 256-bit list around p (p-40..p+40, 2^k, 2^k±1, p with one limb perturbed, 2^256-1, ...); x+p and y+p aliases of small-coordinate points; " +
-			"(x,-y), (x,y±1), (y,x), (beta x,y), hybrid 06/07, 04||0||0, 04||0||1, all-zero, the 256 one-byte inputs, nil vs empty; every single-bit flip of two valid encodings; " +
+			"(x,-y), (x,y±1), (y,x), (beta x,y), near misses (stored y^2 one bit away from stored x^3+7, every bit position), valid points whose x^3 / y^2 have structured stored values, hybrid 06/07, 04||0||0, 04||0||1, all-zero, the 256 one-byte inputs, nil vs empty; every single-bit flip of two valid encodings; " +
 			"hex: lower/upper/mixed case, odd length, non-hex runes, whitespace, 0x prefix; PRNG mutations. Each byte input goes through every byte decoder, so each form-specific decoder sees the other forms. " +
 			"Oracle: the acceptance predicate of the statement computed with math/big (length, prefix, x<p, y<p, Jacobi symbol, curve equation) and the accepted point; a rejected input must return an error, not panic, and leave the receiver's value unchanged " +
 			"(receivers are pre-loaded with a λ-scaled point, a (0:Y:0) identity, or a random point). " +
@@ -58,7 +58,7 @@ func init() {
 		Require: func(string) map[string]int64 {
 			return map[string]int64{
 				"accept": 2000, "reject": 10000, "reject:x>=p": 100, "reject:off-curve": 500, "reject:alias-x+p": 10, "reject:alias-y+p": 5,
-				"accept:identity": 3, "accept:compressed": 500, "accept:uncompressed": 500, "wrong-form": 500, "hex:uppercase": 20, "hex:invalid": 20, "seq": 300, "seq-steps": 2000, "seq:repeat-after-mutation": 300,
+				"accept:identity": 3, "accept:compressed": 500, "accept:uncompressed": 500, "wrong-form": 500, "hex:uppercase": 20, "hex:invalid": 20, "seq": 300, "seq-steps": 2000, "seq:repeat-after-mutation": 300, "class:near-miss": 100, "class:steered-y2": 100, "class:steered-x3": 100,
 			}
 		},
 	})
@@ -228,6 +228,28 @@ func c03Generate(c *mon.Ctx) {
 			m := append([]byte{}, enc...)
 			m[i/8] ^= 1 << (i % 8)
 			emitBytes(m, "bitflip")
+		}
+	}
+
+	// 6b. valid points whose x^3 resp. y^2 = x^3+7 sit on structured STORED values (must be accepted), and near misses:
+	// (x, y) whose stored y^2 differs from the stored x^3+7 in exactly one bit (must be rejected)
+	for _, t := range gen.DecodeTargets() {
+		for k, f := range []func(*big.Int) (oracle.Pt, bool){gen.PointWithStoredY2, gen.PointWithStoredX3} {
+			if p, ok := f(t); ok {
+				cl := []string{"steered-y2", "steered-x3"}[k]
+				emitBytes(oracle.EncC(p), cl)
+				emitBytes(oracle.EncU(p), cl)
+				emitCoords(p.X, p.Y, cl)
+			}
+		}
+	}
+
+	for i, pv := range []gen.PV{{P: g}, pool.NonInf[7], pool.NonInf[20]} {
+		for bit := i; bit < 256; bit += 1 + i {
+			if y, ok := gen.NearMissY(pv.P.X, bit); ok {
+				emitBytes(append(append([]byte{4}, oracle.Bytes32(pv.P.X)...), oracle.Bytes32(y)...), "near-miss")
+				emitCoords(pv.P.X, y, "near-miss")
+			}
 		}
 	}
 
@@ -574,6 +596,10 @@ func c03Run(c *mon.Ctx, csAny any) {
 	}
 
 	c.Eval(1)
+
+	if cs.Class == "near-miss" || cs.Class == "steered-y2" || cs.Class == "steered-x3" {
+		c.Count("class:" + cs.Class)
+	}
 
 	if pan, pv := mon.Call(call); pan {
 		c.Fail(fmt.Sprintf("%s panicked on a %d-byte input: %v", cs.Dec, len(in), pv), "decode-panic:"+cs.Dec, nil)
